@@ -122,6 +122,32 @@ Proof.
   intros E. assert (E0 : m00 (@roty R _ (Rabs (-3/5)) (4/5)) = m00 (@roty R _ (-3/5) (4/5))) by (rewrite E; reflexivity).
   cbn in E0. rewrite Rabs_left in E0 by lra. lra.
 Qed.
+(* the operation is a true projection: applying the pose map twice is applying it once (all three planes - the XZ
+   defect concerns planar INPUT poses with a negative heading cosine, the XZ OUTPUT always has a non-negative one) *)
+Lemma planar_cs_fst_nonneg (a b : R) : 0 <= b -> 0 <= fst (@planar_cs R _ a b).
+Proof.
+  intros Hb. unfold planar_cs. rnum. set (h := sqrt (a * a + b * b)).
+  destruct (Reqb h 0) eqn:E; cbn [fst]; [lra|].
+  assert (Hn : h <> 0) by (intros Z; apply Reqb_true in Z; congruence).
+  assert (Hp : 0 <= h) by apply sqrt_pos.
+  unfold Rdiv. apply Rmult_le_pos; [exact Hb|]. left. apply Rinv_0_lt_compat. lra.
+Qed.
+Lemma proj_rot_xz_form (m : M3R) : exists c s, c * c + s * s = 1 /\ 0 <= c /\ proj_rotR XZ m = roty c s.
+Proof.
+  unfold proj_rot. eexists _, _. split; [apply planar_cs_unit|]. split; [|reflexivity].
+  apply planar_cs_fst_nonneg. rnum. apply sqrt_pos.
+Qed.
+Theorem proj_rot_idempotent pl (m : M3R) : proj_rotR pl (proj_rotR pl m) = proj_rotR pl m.
+Proof.
+  destruct pl.
+  - destruct (proj_rot_planar XY m) as (c & s & H & ->). now apply proj_xy_fixes_planar.
+  - destruct (proj_rot_xz_form m) as (c & s & H & Hc & ->). now apply proj_xz_fixes_planar_partial.
+  - destruct (proj_rot_planar YZ m) as (c & s & H & ->). now apply proj_yz_fixes_planar.
+Qed.
+Theorem proj_pose_idempotent pl (p : PoseR) : proj_poseR pl (proj_poseR pl p) = proj_poseR pl p.
+Proof.
+  unfold proj_pose. cbn [prot ptr]. rewrite proj_rot_idempotent. f_equal. destruct pl; reflexivity.
+Qed.
 End Proj.
 
 (* ---------- the state machine ---------- *)
@@ -538,6 +564,47 @@ Theorem effect_propagate t p0 (r : list PoseR) : SE3 t -> Forall SE3 (p0 :: r) -
   exists r', transform_poses t true true (p0 :: r) = p0 :: r' /\ rels p0 r' = map (fun d => pmul d t) (rels p0 r).
 Proof.
   intros Ht F. inversion F; subst. eexists. split; [reflexivity|]. now apply propagate_rels.
+Qed.
+
+(* --- projection as an operation of the object: count, order and timestamps stay, a second one is refused --- *)
+Theorem project_keeps_stamps_count_order s pl s' : stepR s (Project pl) = Some s' ->
+  t_stamps s' = t_stamps s /\ absT s' = map (@proj_pose R _ eps4 pl) (absT s) /\ length (absT s') = length (absT s).
+Proof.
+  cbn [step]. destruct (t_proj s); [discriminate|]. intros E. apply (f_equal (fun o => match o with Some x => x | None => s end)) in E.
+  subst s'. split; [reflexivity|]. split; [reflexivity|]. unfold poses_of at 1. cbn [rd_poses t_poses]. apply map_length.
+Qed.
+Lemma proj_flag_monotone s o s' : stepR s o = Some s' -> t_proj s = true -> t_proj s' = true.
+Proof.
+  intros E H. destruct o; cbn [step] in E.
+  - apply (f_equal (fun o => match o with Some x => x | None => s end)) in E. subst s'.
+    unfold rd_pos. destruct (t_pos s); [exact H|]. destruct (t_poses s); exact H.
+  - apply (f_equal (fun o => match o with Some x => x | None => s end)) in E. subst s'.
+    unfold rd_quat. destruct (t_quat s); [exact H|]. destruct (t_poses s); exact H.
+  - apply (f_equal (fun o => match o with Some x => x | None => s end)) in E. subst s'.
+    unfold rd_poses. destruct (t_poses s); [exact H|]. destruct (t_quat s); [|exact H]. destruct (t_pos s); exact H.
+  - apply (f_equal (fun o => match o with Some x => x | None => s end)) in E. subst s'. exact H.
+  - apply (f_equal (fun o => match o with Some x => x | None => s end)) in E. subst s'. exact H.
+  - destruct (omap _ (t_pos s)); [|discriminate]. destruct (omap _ (t_quat s)); [|discriminate].
+    destruct (omap _ (t_poses s)); [|discriminate]. destruct (omap _ (t_stamps s)); [|discriminate].
+    apply (f_equal (fun o => match o with Some x => x | None => s end)) in E. subst s'. exact H.
+  - rewrite H in E. discriminate.
+  - apply (f_equal (fun o => match o with Some x => x | None => s end)) in E. subst s'. exact H.
+Qed.
+Lemma proj_flag_run s ops_ s' : runR s ops_ = Some s' -> t_proj s = true -> t_proj s' = true.
+Proof.
+  revert s. induction ops_ as [|o r IH]; intros s E H; cbn [run] in E.
+  - apply (f_equal (fun o => match o with Some x => x | None => s end)) in E. now subst s'.
+  - destruct (stepR s o) as [s1|] eqn:E1; [|discriminate]. apply (IH s1 E). exact (proj_flag_monotone s o s1 E1 H).
+Qed.
+(* after a projection, whatever else is done to the object (reads, transformations, scaling, reductions, copies),
+   every further projection - onto any plane - is refused *)
+Theorem second_projection_refused s pl s1 ops_ s2 pl' :
+  stepR s (Project pl) = Some s1 -> runR s1 ops_ = Some s2 -> stepR s2 (Project pl') = None.
+Proof.
+  intros E1 E2. assert (H1 : t_proj s1 = true).
+  { cbn [step] in E1. destruct (t_proj s); [discriminate|].
+    apply (f_equal (fun o => match o with Some x => x | None => s end)) in E1. now subst s1. }
+  cbn [step]. now rewrite (proj_flag_run s1 ops_ s2 E2 H1).
 Qed.
 
 (* --- derived quantities follow from the positions --- *)
